@@ -80,6 +80,9 @@ fn alpha_for(name: &str, a: &Alpha) -> Alpha {
         a.ints.retain(|v| *v <= 1000);
         a.ints.push(9);
         a.ints.push(27);
+        // sizes that admit 64 and more dimensions
+        a.ints.push(64);
+        a.ints.push(100);
     }
     if name == "LIST.ADD" || name == "LIST.SET" {
         a.ivs = vec![vec![], vec![9], vec![1, 9, 9], vec![11, 5, 3], vec![4, 10, 2, 6], vec![0, 13, -1, 9], vec![3, 3, 3]];
